@@ -77,11 +77,16 @@ class FindersProfile(StoreProfile):
 
     # ------------------------------------------------------------------ oracles
     def apply(self, run, step):
-        if step["op"] in ("mirror", "create", "write"):
-            run.scratch["recent"] = []
         if self.apply_common(run, step):
             if step["op"] == "junk":
                 self.recheck_after_junk(run, step)
+            if step["op"] in ("mirror", "create", "write"):
+                # the answers must track the change: the recent searches are asked again on the new state
+                recent = run.scratch.get("recent") or []
+                run.scratch["recent"] = []
+                for s, _ in recent[-3:]:
+                    self.check_search(run, s)
+                    run.probes["searches_repeated_after_create"] += 1
             return
         if step["op"] == "search":
             ans = self.check_search(run, step["s"])
